@@ -81,8 +81,13 @@ fn deviation(curve: &dyn Fn(f64) -> (f64, f64), poly: &[(f64, f64)]) -> (f64, f6
     (d1, d2)
 }
 
+pub const HEADER_DEV: &str =
+    "From Coq Require Import QArith.\nFrom LV Require Import Base.Prelude Model.Bezier Checker.Region Checker.CurveDev Run.C09.\nOpen Scope Q_scope.";
+
 struct Cx<'a> {
     w: &'a mut ShardWriter,
+    wd: &'a mut ShardWriter,
+    dev_budget: usize,
     st: &'a mut Stats,
     idx: &'a mut std::fs::File,
     id: usize,
@@ -168,6 +173,29 @@ fn tolerance_check_c<S: Fl>(cx: &mut Cx, label: &str, tol: f64, dev: (f64, f64),
     }
 }
 
+/// squared tolerance handed to the verified curve-deviation checker: the bound the sampled check
+/// uses (tol * 1.0001 + 1e-9) with a further 1e-4 relative margin, as an exact rational
+fn dev_tol2(tol: f64) -> String {
+    let t = tol * 1.0002 + 2e-9;
+    gq64(t * t)
+}
+
+fn gpt<S: Fl>(p: Point<S>) -> String {
+    format!("({}, {})", p.x.gq(), p.y.gq())
+}
+
+/// a flattening goes to the verified checker when the sampled check accepted it, everything is
+/// finite and it is small enough to evaluate in seconds
+fn dev_eligible<S: Fl>(cx: &Cx, tol: f64, dev: (f64, f64), pieces: &[(Point<S>, Point<S>, S, S)]) -> bool {
+    cx.dev_budget > 0
+        && !pieces.is_empty()
+        && pieces.len() <= 40
+        && dev.0.max(dev.1) <= tol * 1.0001 + 1e-9
+        && pieces.iter().all(|p| p.0.x.f().is_finite() && p.0.y.f().is_finite() && p.1.x.f().is_finite() && p.1.y.f().is_finite() && p.2.f().is_finite() && p.3.f().is_finite())
+        && pieces.windows(2).all(|w| w[0].3 <= w[1].3)
+        && pieces.last().unwrap().3 == S::ONE
+}
+
 fn quad_case<S: Fl>(cx: &mut Cx, q: QuadraticBezierSegment<S>, tol: S) {
     use std::io::Write;
     let label = format!("{:?} tol {:?} ({} bits)", q, tol, S::bits());
@@ -212,6 +240,22 @@ fn quad_case<S: Fl>(cx: &mut Cx, q: QuadraticBezierSegment<S>, tol: S) {
     tolerance_check::<S>(cx, &label, tol.f(), dev, k2_quad(&q, tol));
     cx.st.sample(format!("{} -> {} segments", label, pieces.len()));
     writeln!(cx.idx, "{}\t{}", cx.id, label).ok();
+    if dev_eligible(cx, tol.f(), dev, &pieces) {
+        cx.dev_budget -= 1;
+        cx.st.inc("verified_deviation_cases");
+        cx.st.inc("verified_deviation_quadratic");
+        cx.wd.push(format!(
+            "(QD {} {} {} (mkQuad {} {} {}) {} {})",
+            cx.id,
+            dev_tol2(tol.f()),
+            dev_tol2(tol.f()),
+            gpt(q.from),
+            gpt(q.ctrl),
+            gpt(q.to),
+            glist(pieces.iter().map(|p| p.3.gq())),
+            glist(std::iter::once(gpt(q.from)).chain(pieces.iter().map(|p| gpt(p.1))))
+        ));
+    }
     cx.w.push(format!(
         "(QC {} {} {})",
         cx.id,
@@ -275,6 +319,23 @@ fn cubic_case<S: Fl>(cx: &mut Cx, c: CubicBezierSegment<S>, tol: S) {
     let dev_it = deviation(&|t| { let p = c64.sample(t); (p.x, p.y) }, &poly_it);
     tolerance_check::<S>(cx, &format!("{} [flattened() iterator]", label), tol.f(), dev_it, k2);
     writeln!(cx.idx, "{}\t{}", cx.id, label).ok();
+    if dev_eligible(cx, tol.f(), dev, &pieces) {
+        cx.dev_budget -= 1;
+        cx.st.inc("verified_deviation_cases");
+        cx.st.inc("verified_deviation_cubic");
+        cx.wd.push(format!(
+            "(CD {} {} {} (mkCubic {} {} {} {}) {} {})",
+            cx.id,
+            dev_tol2(tol.f()),
+            dev_tol2(tol.f()),
+            gpt(c.from),
+            gpt(c.ctrl1),
+            gpt(c.ctrl2),
+            gpt(c.to),
+            glist(pieces.iter().map(|p| p.3.gq())),
+            glist(std::iter::once(gpt(c.from)).chain(pieces.iter().map(|p| gpt(p.1))))
+        ));
+    }
     cx.w.push(format!(
         "(CC {} {}%Z {} {})",
         cx.id,
@@ -505,10 +566,13 @@ pub fn main(args: &Args) -> std::io::Result<()> {
     let mut st = Stats::default();
     let mut w = ShardWriter::new(&args.out, "c09_cases", args.shards, HEADER, "bad_cases");
     w.disabled = args.direct_only();
+    let mut wd = ShardWriter::new(&args.out, "c09dev_cases", args.shards, HEADER_DEV, "dev_bad_cases");
+    wd.disabled = args.direct_only();
     let mut idx = std::fs::File::create(args.out.join("c09_index.txt"))?;
     let mut rng = Rng::new(args.seed ^ 0x09);
     let n = if args.thorough() { 4000 } else { 450 };
-    let mut cx = Cx { w: &mut w, st: &mut st, idx: &mut idx, id: 0 };
+    let dev_budget = if args.thorough() { 3000 } else { 480 };
+    let mut cx = Cx { w: &mut w, wd: &mut wd, dev_budget, st: &mut st, idx: &mut idx, id: 0 };
     run_scalar::<f32>(&mut cx, &mut rng, n);
     run_scalar::<f64>(&mut cx, &mut rng, n);
     for _ in 0..n {
@@ -525,5 +589,6 @@ pub fn main(args: &Args) -> std::io::Result<()> {
     adapters(&mut cx, &mut rng, n);
     drop(cx);
     w.finish()?;
+    wd.finish()?;
     st.write(&args.out.join("c09_stats.json"))
 }
